@@ -72,6 +72,10 @@ def _child(job, conn):
     conn.close()
 
 
+def n_bounded_ok(b):
+    return True
+
+
 def _run_jobs(jobs, nproc, tier):
     """one process per verification unit, at most nproc at a time, each under a hard wall-clock and memory limit:
     a unit that exceeds them is reported as UNDECIDED (solver run-away), never as a violation"""
@@ -372,7 +376,17 @@ def _check(prop, tier, seed, args, t0):
             p = subprocess.run([VENV_PY, '-c', code], cwd=VERIF, env=env, capture_output=True, text=True, timeout=3600)
             line = [ln for ln in p.stdout.splitlines() if ln.startswith('@@')]
             if p.returncode != 0 or not line:
-                errors.append('bounded stand-in %s crashed: %s' % (b['name'], (p.stderr or p.stdout)[-1500:]))
+                tb = (p.stderr or p.stdout)[-3000:]
+                frames = [ln.strip() for ln in tb.splitlines() if ln.strip().startswith('File "')]
+                if frames and (os.path.realpath(REPO) + os.sep) in os.path.realpath(frames[-1].split('"')[1]) + os.sep and n_bounded_ok(b):
+                    # the exception was raised INSIDE the code under test, in a call the stand-in makes without expecting
+                    # any exception (it completes on the unchanged tree): a behaviour change, reported with the traceback
+                    name = 'bounded:%s#aborted by an exception raised inside the code under test' % b['name']
+                    path = write_replay(prop, name, None, None, None, 'bounded',
+                                        dict(module=b['module'], func=b['func'], traceback=tb, tier=tier, seed=seed))
+                    violations.append(dict(name=name, replay=path, confirmed=False, observed=dict(traceback=tb[-600:])))
+                    continue
+                errors.append('bounded stand-in %s crashed: %s' % (b['name'], tb[-1500:]))
                 continue
             br = json.loads(line[-1][2:])
             br['name'] = b['name']
